@@ -630,3 +630,61 @@ brk("c16_keyword_partial_cancels_nothing", [
     E(TO, lambda n: isinstance(n, ast.FunctionDef) and n.name == "on_result", PASS),
     E(TO, stmt("future.add_done_callback(on_result)"), to("future.add_done_callback(partial(_cancel_task, task=task))")),
 ], {"C16": []})
+
+# =============================================================================================== round 9 additions
+_CTXREC = lambda n: isinstance(n, ast.Expr) and U(n).startswith("MetricsContext.record(")  # noqa: E731
+brk("c10_falsy_metric_not_recorded", [E("context.access.ctx.record", _CTXREC, before("if not metric:" + NL + "    return"))], {"C10": ["C10.2"]})
+brk("c18_falsy_result_not_traced", [E("helpers.tracing.ResultTrace.of", lambda n: isinstance(n, ast.Return) and U(n) == "return cls(result=value)", to("return cls(result=value if value else MISSING)"))], {"C18": ["C18.4"]})
+for _name, _cls, _exp in (("timeout", "helpers.timeouted._AsyncTimeout", {"C16": ["C16.6"]}), ("throttle", "helpers.throttling._AsyncThrottle", {"C15": ["C15.2"]}), ("executor", "helpers.asynchrony._ExecutorWrapper", {"C18": ["C18.1"]})):
+    brk(f"c16_wrapper_keeps_a_derived_function_{_name}", [E(f"{_cls}.__init__", stmt("self._function"), lambda s: s.rsplit("=", 1)[0] + "= (lambda f: f)(function)")], _exp)
+    ben(f"c16_wrapper_keeps_the_function_through_cast_{_name}", [E(f"{_cls}.__init__", stmt("self._function"), lambda s: s.rsplit("=", 1)[0] + "= cast(Any, function)"), E(f"mod:{_cls.rsplit('.', 1)[0]}", lambda n: isinstance(n, ast.ImportFrom) and n.module == "collections.abc", after("from typing import Any, cast"))], [next(iter(_exp))])
+_RECV_HELPER = "def _receiver(instance: object, /) -> Hashable:" + NL + "    try:" + NL + "        return ref(instance)" + NL + "    except TypeError:" + NL + "        {fallback}" + NL + NL
+_CACHE_CLS = lambda n: isinstance(n, ast.ClassDef) and n.name == "_SyncCache"  # noqa: E731
+for _c in ("_SyncCache", "_AsyncCache"):
+    brk(f"c12_receiver_falls_back_to_id_{_c}", [E("mod:helpers.caching", _CACHE_CLS, before(_RECV_HELPER.format(fallback="return id(instance)"))), E(f"helpers.caching.{_c}.__method_call__", expr("ref(__method_self)"), to("_receiver(__method_self)"))], {"C12": ["C12.6"]})
+    ben(f"c12_receiver_through_helper_{_c}", [E("mod:helpers.caching", _CACHE_CLS, before(_RECV_HELPER.format(fallback="raise"))), E(f"helpers.caching.{_c}.__method_call__", expr("ref(__method_self)"), to("_receiver(__method_self)"))], ["C12", "C13"], note="the recorded finding (ref() compares by ==) stays the recorded finding")
+_PERIOD = lambda n: isinstance(n, ast.Match) and U(n.subject) == "period"  # noqa: E731
+brk("c15_period_through_timedelta", [E("helpers.throttling._AsyncThrottle.__init__", _PERIOD, to("match period:" + NL + "    case timedelta() as delta:" + NL + "        pass" + NL + "    case period_seconds:" + NL + "        delta = timedelta(seconds=period_seconds)" + NL + "self._period = delta.total_seconds()"))], {"C15": ["C15.5"]})
+ben("c15_period_through_a_local", [E("helpers.throttling._AsyncThrottle.__init__", _PERIOD, to("match period:" + NL + "    case timedelta() as delta:" + NL + "        seconds = delta.total_seconds()" + NL + "    case period_seconds:" + NL + "        seconds = period_seconds" + NL + "self._period = seconds"))], ["C15"])
+_STATE_LADDER = lambda n: isinstance(n, ast.If) and "in self._state" in U(n.test)  # noqa: E731
+_SINGLE_EXIT = (
+    "resolved: StateType" + NL + "if state not in self._state:" + NL + "    if default is None:" + NL + "        try:" + NL + "            resolved = state()" + NL + "        except Exception as exc:" + NL
+    + "            raise MissingState('missing') from exc" + NL + "    else:" + NL + "        resolved = default" + NL + "else:" + NL + "    resolved = {stored}" + NL + "return resolved"
+)
+ben("c01_lookup_single_exit", [E(f"{SS}.state", _STATE_LADDER, to(_SINGLE_EXIT.format(stored="cast(StateType, self._state[state])")))], ["C01", "C03"])
+brk("c01_lookup_single_exit_prefers_default", [E(f"{SS}.state", _STATE_LADDER, to(_SINGLE_EXIT.format(stored="default or cast(StateType, self._state[state])")))], {"C01": ["C01.2"], "C03": ["C03.9"]})
+_MISSING_FACTORY = lambda n: isinstance(n, ast.FunctionDef) and n.name == "_prepare_validator_of_missing"  # noqa: E731
+_HOISTED = "def _validate_missing(value: Any) -> Any:" + NL + "    if value {op} MISSING:" + NL + "        return value" + NL + "    else:" + NL + "        raise TypeError('not missing')" + NL + NL + NL + "def _prepare_validator_of_missing(annotation: AttributeAnnotation, /) -> Callable[[Any], Any]:" + NL + "    return _validate_missing"
+ben("c20_missing_validator_hoisted", [E("mod:state.validation", _MISSING_FACTORY, to(_HOISTED.format(op="is")))], ["C20", "C05", "C04"])
+brk("c20_missing_validator_hoisted_by_equality", [E("mod:state.validation", _MISSING_FACTORY, to(_HOISTED.format(op="==")))], {"C20": ["C20.4"]})
+_TGC_CLASS = lambda n: isinstance(n, ast.FunctionDef) and n.name == "run"  # noqa: E731
+_PARKED = "@staticmethod" + NL + "def check_cancellation() -> None:" + NL + "    if (task := current_task()) and task.cancelling() > {n}:" + NL + "        raise CancelledError()" + NL + NL
+_IMPORT_ASYNCIO = lambda n: isinstance(n, ast.ImportFrom) and n.module == "asyncio"  # noqa: E731
+_CHK = lambda n: isinstance(n, ast.If) and "cancelling()" in U(n.test)  # noqa: E731
+ben("c07_check_parked_in_tasks_module", [E(f"mod:context.tasks", _IMPORT_ASYNCIO, after("from asyncio import current_task")), E(f"{TGC}", lambda n: isinstance(n, ast.FunctionDef) and n.name == "__init__", before(_PARKED.format(n=0))), E("context.access.ctx.check_cancellation", _CHK, to("TaskGroupContext.check_cancellation()"))], ["C07"])
+brk("c07_check_parked_in_tasks_module_off_by_one", [E(f"mod:context.tasks", _IMPORT_ASYNCIO, after("from asyncio import current_task")), E(f"{TGC}", lambda n: isinstance(n, ast.FunctionDef) and n.name == "__init__", before(_PARKED.format(n=1))), E("context.access.ctx.check_cancellation", _CHK, to("TaskGroupContext.check_cancellation()"))], {"C07": ["C07.2"]})
+_CURSOR2 = (
+    "scope: ScopeMetrics | None = self" + NL + "while scope is not None:" + NL + "    assert not scope._completed.done()" + NL + "    if {guard}all(nested.is_completed for nested in scope._nested):" + NL
+    + "        scope._completed.set_result(monotonic() - scope._timestamp)" + NL + "        parent: ScopeMetrics | None = scope._parent" + NL + "        if parent and not parent._completed.done():" + NL + "            scope = parent" + NL
+    + "        else:" + NL + "            scope = None" + NL + "    else:" + NL + "        scope = None"
+)
+ben("c09_cursor_loop_until_none", [E(f"{SMx}._complete_if_able", _CIA_DEF, _cia_body(_CURSOR2.format(guard="scope._finished and ")))], ["C09", "C02", "C10"])
+brk("c09_cursor_loop_until_none_without_finished_guard", [E(f"{SMx}._complete_if_able", _CIA_DEF, _cia_body(_CURSOR2.format(guard="")))], {"C09": ["C09.2"]})
+_WRAPPERS = (
+    "def _schedule_completion(completion, metrics, _future, /) -> None:" + NL + "    run_coroutine_threadsafe(completion(metrics), metrics._loop)" + NL + NL + NL
+    + "def _call_completion(completion, metrics, _future, /) -> None:" + NL + "    completion({arg})" + NL + NL + NL
+)
+_SM_CLASS = lambda n: isinstance(n, ast.ClassDef) and n.name == "ScopeMetrics"  # noqa: E731
+_ATTACH = lambda n: isinstance(n, ast.If) and U(n.test).startswith("(completion := completion)")  # noqa: E731
+_ATTACHED = "if completion:" + NL + "    self._completed.add_done_callback(partial(_schedule_completion if iscoroutinefunction(completion) else _call_completion, completion, self))"
+_IMPORT_FUNCTOOLS = [E("mod:context.metrics", lambda n: isinstance(n, ast.ImportFrom) and n.module == "asyncio", after("from functools import partial"))]
+ben("c09_completion_wrappers_bound_with_partial", _IMPORT_FUNCTOOLS + [E("mod:context.metrics", _SM_CLASS, before(_WRAPPERS.format(arg="metrics"))), E(f"{SMx}.__init__", _ATTACH, to(_ATTACHED))], ["C09"])
+brk("c09_completion_wrapper_called_with_the_future", _IMPORT_FUNCTOOLS + [E("mod:context.metrics", _SM_CLASS, before(_WRAPPERS.format(arg="_future"))), E(f"{SMx}.__init__", _ATTACH, to(_ATTACHED))], {"C09": ["C09.1"]})
+_VIEW = lambda n: isinstance(n, ast.If) and U(n.test) == "not merge"  # noqa: E731
+ben("c10_unmerged_view_through_an_alias", [E(f"{SMx}.metrics", _VIEW, to("if not merge:" + NL + "    own = self._metrics" + NL + "    return list(own.values())"))], ["C10"])
+brk("c03_update_answered_with_the_old_snapshot", [E(f"{SS}.updated", lambda n: isinstance(n, ast.If) and U(n.test) == "state", before("if all(self._state.get(type(element)) == element for element in state):" + NL + "    return self"))], {"C03": ["C03.5"], "C01": ["C01.14"], "C08": ["C08.10"]})
+brk("c20_singleton_test_by_truthiness", [E(f"{MT}.MissingType.__call__", lambda n: isinstance(n, ast.If), to("cls._instance = cls._instance or super().__call__()" + NL + "return cls._instance"))], {"C20": ["C20.1"], "C05": ["C05.17"]})
+_MIMIC_COPY = lambda n: isinstance(n, ast.For) and "__dict__" in U(n.iter)  # noqa: E731
+brk("c18_mimic_overwrites_wrapper_state", [E("utils.mimic.mimic_function.mimic", _MIMIC_COPY, to("target.__dict__.update(function.__dict__)"))], {"C18": ["C18.7"], "C12": ["C12.8"], "C13": ["C13.10"], "C15": ["C15.6"], "C16": ["C16.7"]})
+for _c in ("__call__", "__method_call__"):
+    brk(f"c13_key_reduced_to_its_hash_{_c}", [E(f"helpers.caching._AsyncCache.{_c}", lambda n: isinstance(n, ast.AnnAssign) and U(n.target) == "key", lambda s: s.replace("_make_key(", "hash(_make_key(", 1).rstrip() + ")")], {"C13": ["C13.9"], "C12": ["C12.1"]})
